@@ -198,6 +198,8 @@ def ltf_plan(**args):
             dftlen = Lmin
 
         nseg = int(round_half_up((N - dftlen) / (xov * dftlen) + 1))
+        # There are only N - dftlen + 1 distinct segment positions.
+        nseg = min(nseg, N - dftlen + 1)
         if nseg == 1:
             dftlen = N
 
@@ -218,7 +220,9 @@ def ltf_plan(**args):
     for j in range(nf):
         L_j = int(L_arr[j])
         L_arr[j] = L_j
-        averages = int(round_half_up(((N - L_j) / (1 - olap)) / L_j + 1))
+        # Same expression as for K above, so that K[j] == len(D[j]) bit for bit.
+        averages = int(round_half_up((N - L_j) / (xov * L_j) + 1))
+        averages = min(averages, N - L_j + 1)
         navg_arr.append(averages)
 
         if averages == 1:
